@@ -212,6 +212,15 @@ DYADIC = (4, 8, 16, 32, 64)
 OTHER = (3, 6, 12, 20, 24, 33, 40, 41, 47, 55)     # 41, 47, 55: float32 (k/C)*C < k for several k
 
 
+# what precedes the call of optimize_prec_assignment (alpha = the matrix the refinement must work on):
+#   forward       alpha written, forward pass                     (theta_alpha reflects alpha)
+#   none          alpha written, no forward pass at all since construction
+#   stale         other alpha, forward pass, alpha written        (end of a training loop: step after forward)
+#   hard-stale    other alpha, update_softmax_options(hard=True), forward pass, alpha written
+#   refine-stale  other alpha, forward pass, an earlier optimize_prec_assignment call, alpha written
+PRE = ('forward', 'none', 'stale', 'hard-stale', 'refine-stale', 'stale')
+
+
 def _gen_spec(rng, quick, idx):
     """a small per-channel MPS net: 2-4 convs (1x1 / 3x3) and optionally a linear head"""
     # every order of the precision tuples: the sorting permutation is its own inverse for ascending,
@@ -232,9 +241,14 @@ def _gen_spec(rng, quick, idx):
         else:
             k = rng.choice((1, 3, 3))
         layers.append([c, k])
-    return {'wp': list(wp), 'layers': layers, 'hw': rng.choice((3, 4, 6)),
+    spec = {'wp': list(wp), 'layers': layers, 'hw': rng.choice((3, 4, 6)),
             'linear': rng.random() < 0.5, 'alpha_kind': rng.choice(('perm', 'coherent', 'coherent')),
             'seed': rng.randrange(1 << 30)}
+    # call history before the refinement (see `_prepare`): sampling option of the constructor, mode,
+    # and what happened between the last forward pass and the call
+    spec['history'] = {'hard_ctor': rng.random() < 0.5, 'mode': rng.choice(('eval', 'eval', 'train')),
+                       'pre': rng.choice(PRE)}
+    return spec
 
 
 def _gen_alpha(rng, kind, P, C, zero_idx=None):
@@ -266,7 +280,7 @@ def _gen_alpha(rng, kind, P, C, zero_idx=None):
     return rows
 
 
-def _build(spec, alphas=None):
+def _build(spec, alphas=None, twin=False):
     import torch
     import torch.nn as nn
     import torch.nn.functional as F
@@ -292,25 +306,54 @@ def _build(spec, alphas=None):
                 x = self.fc(x.flatten(1))
             return x
 
+    hist = spec.get('history')
     torch.manual_seed(spec['seed'])
     m = MPS(Net(), input_shape=(3, hw, hw), cost={'ne16': ne16_latency},
             w_search_type=MPSType.PER_CHANNEL,
-            qinfo=get_default_qinfo(tuple(spec['wp']), (8,)))
+            qinfo=get_default_qinfo(tuple(spec['wp']), (8,)),
+            hard_softmax=bool(hist and hist['hard_ctor']))
     rng = random.Random(spec['seed'])
-    used = {}
-    with torch.no_grad():
-        for n, p in sorted(m.named_nas_parameters(), key=lambda t: t[0]):
-            if n.endswith('w_mps_quantizer.alpha'):
-                lname = n[:-len('.w_mps_quantizer.alpha')]
-                if alphas is not None and lname in alphas:
-                    a = alphas[lname]
-                else:
-                    a = _gen_alpha(rng, spec['alpha_kind'], p.shape[0], p.shape[1])
-                used[lname] = a
-                p.copy_(torch.tensor(a, dtype=torch.float32))
-    m.eval()
-    m.update_softmax_options(hard=True)
-    m(torch.zeros(1, 3, hw, hw))
+    rng0 = random.Random(spec['seed'] ^ 0x5A5A5A)
+    used, other = {}, {}
+    params = [(n[:-len('.w_mps_quantizer.alpha')], p) for n, p in sorted(m.named_nas_parameters(), key=lambda t: t[0])
+              if n.endswith('w_mps_quantizer.alpha')]
+    for lname, p in params:
+        if alphas is not None and lname in alphas:
+            used[lname] = alphas[lname]
+        else:
+            used[lname] = _gen_alpha(rng, spec['alpha_kind'], p.shape[0], p.shape[1])
+        other[lname] = _gen_alpha(rng0, spec['alpha_kind'], p.shape[0], p.shape[1])
+
+    def write(values):
+        with torch.no_grad():
+            for lname, p in params:
+                p.copy_(torch.tensor(values[lname], dtype=torch.float32))
+
+    x = torch.zeros(1, 3, hw, hw)
+    if hist is None or twin:
+        # reference state: the arg-max assignment of `used`, hard sampling, coefficients refreshed
+        write(used)
+        m.eval() if (hist is None or hist['mode'] == 'eval') else m.train()
+        m.update_softmax_options(hard=True)
+        m(x)
+        return m, used
+    m.eval() if hist['mode'] == 'eval' else m.train()
+    pre = hist['pre']
+    if pre == 'forward':
+        write(used)
+        m(x)
+    elif pre == 'none':
+        write(used)
+    else:
+        write(other)
+        if pre == 'hard-stale':
+            m.update_softmax_options(hard=True)
+        m(x)
+        if pre == 'refine-stale':
+            from plinio.methods.mps import utils as U
+            with contextlib.redirect_stdout(io.StringIO()):
+                U.optimize_prec_assignment(m, 'ne16')
+        write(used)                             # e.g. the optimizer step after the last forward pass
     return m, used
 
 
@@ -327,8 +370,15 @@ def _run_e2e(spec, alphas=None):
     import torch
     from plinio.methods.mps import utils as U
     m, used = _build(spec, alphas)
-    before = _w_summary(m)
-    cost_before = float(m.get_cost('ne16').detach())
+    before = _w_summary(m)                      # arg-max assignment of the CURRENT alpha
+    if spec.get('history') is None:
+        cost_before = float(m.get_cost('ne16').detach())
+    else:
+        # cost of that assignment, measured on an identical twin so that the model under test is untouched
+        tw, _ = _build(spec, used, twin=True)
+        assert _w_summary(tw) == before
+        cost_before = float(tw.get_cost('ne16').detach())
+        del tw
     rec = {'layers': {}, 'order': []}
     orig_cc, orig_rr = U._compute_cost, U._reassign_precisions
     state = {'lname': None, 'args': {}}
@@ -428,6 +478,8 @@ def _layer_classes(L, prec_before, prec_after):
         'search_cost_ok': L.get('cost_chosen', 0) <= L['costs'][0],
         'zero_bit': 0 in precs,
         'overlap': overlap(trunc, scores),
+        # the search started from the arg-max counts of the current alpha (else: stale theta_alpha)
+        'fresh': exact_counts(L['passed_frac'][0], C) == w_before,
         'w_before': w_before,
         'trunc': trunc,
     }
@@ -450,6 +502,8 @@ def _e2e_failures(spec, rec):
     """All failures of the end-to-end clauses: list of (key, what, layer).
 
     Classes (decidable from the failing layer), in order of precedence:
+      stale-counts              the search did not start from the arg-max counts of the current alpha
+                                (theta_alpha not refreshed before the search)
       float-residue             chosen counts are not whole channels summing to C
       precisions-not-ascending  the count-level search itself went wrong (chosen counts are not an
                                 upward move of the old ones / cost more) and the tuple is not ascending
@@ -490,7 +544,9 @@ def _e2e_failures(spec, rec):
         # clause: no channel lower than before
         lowered = [c for c in range(len(b)) if a[c] < b[c]]
         if lowered:
-            if not cl['integral']:
+            if not cl['fresh']:
+                key = 'C20:refine:demotes:stale-counts'
+            elif not cl['integral']:
                 key = 'C20:refine:float-residue:demotes'
             elif not cl['dominates']:
                 key = ('C20:refine:demotes:search-moved-down' if cl['ascending']
@@ -515,13 +571,21 @@ def _e2e_failures(spec, rec):
         reported = _reported_counts(rec, lname, precs, cl['w_before']) if prints_ok else None
         handed = [round(v) for v in L['chosen']]
         target = reported if reported is not None else L['chosen']
-        if cl['integral'] and reported is not None and handed != reported:
+        if not cl['fresh'] and w_after != target:
+            out.append(('C20:refine:counts:stale-counts',
+                        'layer %s precisions %s: the search started from counts %s, the arg-max counts of the '
+                        'current alpha are %s; counts after %s, chosen %s'
+                        % (lname, precs, exact_counts(L['passed_frac'][0], L['C']) or L['passed_frac'][0],
+                           cl['w_before'], w_after, target), lname))
+        elif cl['integral'] and reported is not None and handed != reported:
             kind = 'permuted' if sorted(handed) == sorted(reported) else 'differs'
             out.append(('C20:refine:counts:applied-vector-' + kind,
                         'layer %s precisions %s: the refinement reported counts %s but handed %s to the '
                         'reassignment' % (lname, precs, reported, handed), lname))
         if w_after != target:
-            if not cl['integral']:
+            if not cl['fresh']:
+                key = None                      # already reported above
+            elif not cl['integral']:
                 key = 'C20:refine:float-residue:counts'
             elif reported is not None and handed != reported:
                 key = None                      # already reported above
@@ -540,7 +604,9 @@ def _e2e_failures(spec, rec):
     # (a layer's cost also depends on how many channels its producer prunes).
     if rec['cost_after'] > rec['cost_before']:
         bad_search = [(ln, cl) for (ln, cl, _, _) in rose if not cl['search_cost_ok']]
-        if any(not cl['integral'] for (_, cl, _, _) in rose):
+        if any(not cl['fresh'] for (_, cl, _, _) in rose):
+            key = 'C20:refine:cost-raised:stale-counts'
+        elif any(not cl['integral'] for (_, cl, _, _) in rose):
             key = 'C20:refine:float-residue:cost-raised'
         elif bad_search:
             key = ('C20:refine:cost-raised:search-chose-costlier' if all(cl['ascending'] for (_, cl) in bad_search)
